@@ -141,8 +141,9 @@ func genScenario(r *hk.Rand, proto int, idx int) scenario {
 	if r.Chance(12) {
 		sc.Req = append(sc.Req, hdrOp{Kind: "set", K: hk.Pick(r, []string{"Connection", "Keep-Alive", "Proxy-Connection"}), V: "keep-alive"})
 	}
-	if r.Chance(10) {
-		sc.Req = append(sc.Req, hdrOp{Kind: "nc", K: "cookie", V: "raw=1; raw2=2"})
+	if r.Chance(12) {
+		// a caller-written cookie header: the separator with one blank, none, or several
+		sc.Req = append(sc.Req, hdrOp{Kind: "nc", K: "cookie", V: hk.Pick(r, []string{"raw=1; raw2=2", "raw=1;raw2=2", "raw=1;  raw2=2;   raw3=x y", "solo=1"})})
 		names = append(names, "cookie")
 	}
 	if r.Chance(18) {
@@ -206,6 +207,13 @@ func genScenario(r *hk.Rand, proto int, idx int) scenario {
 	}
 	sc.NoCompress = r.Chance(20)
 	names = append(names, "host")
+	// the fields the writers add by themselves can be named in an order list too
+	for _, auto := range []string{"user-agent", "accept-encoding", "content-length"} {
+		if r.Chance(35) {
+			names = append(names, auto)
+		}
+	}
+	names = dedup(names)
 	// order lists
 	switch k := r.Intn(10); {
 	case k < 4:
@@ -218,7 +226,7 @@ func genScenario(r *hk.Rand, proto int, idx int) scenario {
 	case k < 9:
 		sc.Preset = hk.Pick(r, []string{"chrome", "firefox", "safari"})
 	}
-	if proto != 1 {
+	if proto != 1 || r.Chance(15) { // on HTTP/1.1 a pseudo-header order is only a bookkeeping key to be dropped
 		p := append([]string(nil), pseudoPerms[idx%len(pseudoPerms)]...)
 		switch r.Intn(6) {
 		case 0:
@@ -236,6 +244,31 @@ func genScenario(r *hk.Rand, proto int, idx int) scenario {
 		}
 	}
 	return sc
+}
+
+func dedup(xs []string) []string {
+	seen := map[string]bool{}
+	var out []string
+	for _, x := range xs {
+		if !seen[x] {
+			seen[x] = true
+			out = append(out, x)
+		}
+	}
+	return out
+}
+
+// cookiePairs splits a Cookie field value at ';' and drops the blanks after the separator
+// (RFC 6265 5.4: "; " between pairs; servers accept any amount of white space there)
+func cookiePairs(v string) []string {
+	var out []string
+	for _, p := range strings.Split(v, ";") {
+		p = strings.TrimLeft(p, " ")
+		if p != "" {
+			out = append(out, p)
+		}
+	}
+	return out
 }
 
 func lastKey(sc scenario, cli bool) string {
@@ -304,7 +337,7 @@ func expected(sc scenario) expectation {
 		}
 		if lk == "cookie" {
 			for _, v := range vs {
-				e.cookies = append(e.cookies, strings.Split(v, "; ")...)
+				e.cookies = append(e.cookies, cookiePairs(v)...)
 			}
 			continue
 		}
@@ -524,7 +557,12 @@ func oracle(r *hk.Run, sc scenario, obs origin.Obs) {
 		case ln == "user-agent" && (sc.Proto != 1 || f.Name == "User-Agent"):
 			ua = append(ua, f.Value)
 		case ln == "cookie":
-			cookies = append(cookies, strings.Split(f.Value, "; ")...)
+			if sc.Proto == 2 && (strings.HasPrefix(f.Value, " ") || strings.Contains(f.Value, ";")) {
+				// HTTP/2 sends one cookie-pair per field here: the "; " separator (any number of
+				// blanks) is not part of a pair, and RFC 9113 8.2.1 forbids a value that starts with a blank
+				fail("cookie-crumb-corrupted", "a cookie field on HTTP/2 carries part of the pair separator", f, nil)
+			}
+			cookies = append(cookies, cookiePairs(f.Value)...)
 		case ln == "host" && sc.Proto == 1, ln == "content-length", ln == "transfer-encoding" && sc.Proto == 1:
 		case ln == "accept-encoding" && f.Value == "gzip" && !sc.NoCompress && !callerSet(sc, "Accept-Encoding"):
 		case ln == "content-type" && sc.BodyLen > 0 && !callerSet(sc, "Content-Type"):
@@ -634,6 +672,64 @@ func coqLines(fs []origin.Field) string {
 	return hk.CoqList(o)
 }
 
+// coqMerge renders the caller's API calls and the header map the protocol writer received
+// (captured by the innermost round-trip wrapper) as a MergeCase.
+func coqOps(ops []hdrOp) []string {
+	var out []string
+	for _, op := range ops {
+		c := "OpNC"
+		if op.Kind == "set" {
+			c = "OpSet"
+		}
+		out = append(out, fmt.Sprintf("%s %s %s", c, cs(op.K), cs(op.V)))
+	}
+	return out
+}
+
+func coqMerge(sc scenario, capt *captured) string {
+	ro := coqOps(sc.Req)
+	if len(sc.ReqOrder) > 0 {
+		ro = append(ro, "OpOrder "+csList(sc.ReqOrder))
+	}
+	if len(sc.ReqPOrder) > 0 {
+		ro = append(ro, "OpPOrder "+csList(sc.ReqPOrder))
+	}
+	co := coqOps(append(presetOps(sc.Preset), sc.Cli...))
+	var cookies []string
+	for _, c := range sc.ReqCookies {
+		cookies = append(cookies, cs(c.N+"="+c.V))
+	}
+	for _, c := range sc.CliCookies {
+		cookies = append(cookies, cs(c.N+"="+c.V))
+	}
+	// client-level order registrations, in registration order (newClient: the preset first)
+	var regsO, regsP []string
+	if sc.Preset != "" {
+		_, o, p := req.VerifImpersonateTables(sc.Preset)
+		regsO, regsP = append(regsO, csList(o)), append(regsP, csList(p))
+	}
+	if len(sc.CliOrder) > 0 {
+		regsO = append(regsO, csList(sc.CliOrder))
+	}
+	if len(sc.CliPOrder) > 0 {
+		regsP = append(regsP, csList(sc.CliPOrder))
+	}
+	keys := make([]string, 0, len(capt.hdr))
+	for k := range capt.hdr {
+		if k == "Content-Type" && !callerSet(sc, "Content-Type") {
+			continue // set by the body middleware, not by the caller
+		}
+		keys = append(keys, k)
+	}
+	sort.Strings(keys)
+	kvs := make([]string, len(keys))
+	for i, k := range keys {
+		kvs[i] = coqKV(k, capt.hdr[k])
+	}
+	return fmt.Sprintf("MergeCase %s %s %s %s %s %s", hk.CoqList(ro), hk.CoqList(co), hk.CoqList(cookies),
+		hk.CoqList(regsO), hk.CoqList(regsP), hk.CoqList(kvs))
+}
+
 func runE2E(r *hk.Run, rng *hk.Rand) {
 	type startFn func() (*origin.Origin, error)
 	protos := []struct {
@@ -694,6 +790,11 @@ func runE2E(r *hk.Run, rng *hk.Rand) {
 			desc := map[string]interface{}{"kind": "wire-" + pn, "scenario": sc, "wire": obs.Fields}
 			coq := fmt.Sprintf("WireCase %d %s %s", pr.p, coqCreq(capt, sc), coqLines(obs.Fields))
 			r.Add(hk.Case{Coq: coq, Desc: desc}, fmt.Sprintf("e2e|%+v", sc), nUser >= 2)
+			if i%3 == 0 { // the same exchange seen from the API side: calls -> header map at the transport
+				r.Count("merge")
+				r.Add(hk.Case{Coq: coqMerge(sc, capt), Desc: map[string]interface{}{"kind": "merge-" + pn, "scenario": sc, "transport_header": capt.hdr}},
+					fmt.Sprintf("merge|%+v", sc), nUser >= 2)
+			}
 		}
 		o.Close()
 	}
